@@ -573,7 +573,7 @@ def main(tier: str, seed: int) -> int:
     servers.append(None)
     n = shard.ncpu()
     nsh = min(len(servers), n * (2 if tier == "quick" else 4))
-    jobs = [{"tier": tier, "seed": seed * 1009 + i + 1, "servers": part, "fuzz": 150} for i, part in enumerate(shard.split(servers, nsh))]
+    jobs = [{"tier": tier, "seed": seed * 1009 + i + 1, "servers": part, "fuzz": 500} for i, part in enumerate(shard.split(servers, nsh))]
     for res in shard.pmap("checks.c09", "run_shard", jobs, timeout=400 if tier == "quick" else 2400):
         chk.merge(res)
     chk.exhaustive["server_grid_{0,1,2,10}^3"] = True
